@@ -251,6 +251,8 @@ def run_once(spec, balancer=None):
     res["par_tasks"] = sim.par_tasks
     res["zombies"] = len(sim.zombies)
     res["events"] = len(sim.log)
+    res["bytes_written"] = sim.bytes_written
+    res["jobs"] = _jsonable([[e[1], list(e[2])] for e in sim.log if e and e[0] == "job"])
     if spec.get("tap"):
         res["taps"] = _jsonable(sim.taps.get("records", []))
     return res
